@@ -98,6 +98,21 @@ inductive VarArg
   | chr      -- a fixed-size NC_CHAR variable
 deriving DecidableEq, Repr, Inhabited
 
+/-- external type classes as `x_len_NC_attrV` (ncmpio_attr.m4) distinguishes them -/
+inductive XT
+  | x1    -- NC_BYTE, NC_CHAR, NC_UBYTE
+  | x2    -- NC_SHORT, NC_USHORT
+  | x4    -- NC_INT, NC_UINT, NC_FLOAT
+  | x8    -- NC_DOUBLE, NC_INT64, NC_UINT64
+deriving DecidableEq, Repr, Inhabited
+
+/-- x_len_NC_attrV: the space `nelems` values of `xtype` take in the header, "aligned in 4-byte boundary" -/
+def xlen : XT → Nat → Nat
+  | .x1, n => (n + 3) / 4 * 4        -- PNETCDF_RNDUP(nelems, 4)
+  | .x2, n => (n + n % 2) * 2
+  | .x4, n => n * 4
+  | .x8, n => n * 8
+
 inductive PostKind | iput | iget | bput
 deriving DecidableEq, Repr, Inhabited
 
@@ -117,13 +132,15 @@ inductive Call
   | setFill
   | delAtt (v : VarArg) (nameBad aexists : Bool)
   -- attributes / renaming (define mode, or data mode if nothing grows)
-  | putAtt (v : VarArg) (nameBad typeBad charMix negLen : Bool) (aexists grows : Bool)
-      -- aexists: an attribute of that name is there; grows: the new value needs more space than it has
+  | putAtt (v : VarArg) (nameBad typeBad charMix negLen : Bool) (aexists : Bool) (ot : XT) (on : Nat) (nt : XT) (nn : Nat)
+      -- aexists: an attribute of that name is there, of type class `ot` with `on` elements;
+      -- the new value has type class `nt` and `nn` elements
   | getAtt (v : VarArg) (nameBad aexists : Bool)
-  | copyAtt (vinBad voutBad nameBad srcExists dstExists grows : Bool)     -- same file, vin ≠ vout
-  | renameAtt (v : VarArg) (nameBad aexists newInUse longer : Bool)
-  | renameVar (v : VarArg) (nameBad inUse longer : Bool)
-  | renameDim (nameBad dimBad inUse longer : Bool)
+  | copyAtt (vinBad voutBad nameBad srcExists dstExists : Bool) (st : XT) (sn : Nat) (dt : XT) (dn : Nat)
+      -- same file, vin ≠ vout; source attribute (st, sn), attribute of that name at the destination (dt, dn)
+  | renameAtt (v : VarArg) (nameBad aexists newInUse : Bool) (oldLen newLen : Nat)   -- name lengths in bytes
+  | renameVar (v : VarArg) (nameBad inUse : Bool) (oldLen newLen : Nat)
+  | renameDim (nameBad dimBad inUse : Bool) (oldLen newLen : Nat)
   -- blocking data access (var/var1/vara/vars/varm/varn/vard/mput families share sanity_check)
   | rw (isPut coll : Bool) (v : VarArg) (text coordBad : Bool) (varn : Bool)   -- varn: the put/get_varn family
   -- nonblocking
@@ -286,33 +303,33 @@ def detach (s : State) : Out :=
 def hdrWrite (s : State) : Out := { st := s, err := .noerr, wr := !s.n.indef }
 
 /-- ncmpio_put_att (varid, name, type, length already validated by the dispatcher) -/
-def putAtt (aexists grows : Bool) (s : State) : Out :=
+def putAtt (aexists : Bool) (oldXsz xsz : Nat) (s : State) : Out :=
   if aexists then                                          -- indx >= 0: name in use
-    if !s.n.indef && grows then ret s .enotindefine        -- xsz > ncap->value[indx]->xsz in data mode
+    if !s.n.indef && xsz > oldXsz then ret s .enotindefine -- xsz > ncap->value[indx]->xsz in data mode
     else hdrWrite s
   else                                                     -- attribute does not exist
     if !s.n.indef then ret s .enotindefine
     else hdrWrite s
 
 /-- ncmpio_rename_att -/
-def renameAtt (aexists newInUse longer : Bool) (s : State) : Out :=
+def renameAtt (aexists newInUse : Bool) (oldLen newLen : Nat) (s : State) : Out :=
   if !aexists then ret s .enotatt
   else if newInUse then ret s .enameinuse
-  else if !s.n.indef && longer then ret s .enotindefine
+  else if !s.n.indef && oldLen < newLen then ret s .enotindefine   -- attrp->name_len < nnewname_len
   else hdrWrite s
 
 /-- ncmpio_copy_att (same file, different varids) -/
-def copyAtt (srcExists dstExists grows : Bool) (s : State) : Out :=
+def copyAtt (srcExists dstExists : Bool) (dstXsz srcXsz : Nat) (s : State) : Out :=
   if !srcExists then ret s .enotatt                         -- NC_lookupattr on the source
-  else putAtt dstExists grows s                             -- same two tests as ncmpio_put_att
+  else putAtt dstExists dstXsz srcXsz s                     -- iattrp->xsz > ncap_out->value[indx]->xsz: same two tests
 
 /-- ncmpio_del_att -/
 def delAtt (aexists : Bool) (s : State) : Out :=
   if !aexists then ret s .enotatt else ret s .noerr
 
 /-- ncmpio_rename_var / ncmpio_rename_dim -/
-def rename (longer : Bool) (s : State) : Out :=
-  if !s.n.indef && longer then ret s .enotindefine else hdrWrite s
+def rename (oldLen newLen : Nat) (s : State) : Out :=
+  if !s.n.indef && oldLen < newLen then ret s .enotindefine else hdrWrite s   -- name_len < nnewname_len
 
 /-- ncmpio_fill_var_rec: `varp = ncp->vars.value[varid]` without any test -/
 def fillVarRec (v : VarArg) (s : State) : Out :=
@@ -413,7 +430,7 @@ def step (cfg : Cfg) (s : State) (c : Call) : Out :=
     else if v == .bad then ret s .enotvar                   -- varid != NC_GLOBAL && out of range
     else if nameBad then ret s .ebadname
     else Drv.delAtt aexists s
-  | .putAtt v nameBad typeBad charMix negLen aexists grows =>
+  | .putAtt v nameBad typeBad charMix negLen aexists ot on nt nn =>
     -- sanity_check_put, check_EBADTYPE_ECHAR, check_EINVAL, then the driver
     if s.d.rdonly then ret s .eperm
     else if v == .bad then ret s .enotvar
@@ -421,36 +438,36 @@ def step (cfg : Cfg) (s : State) (c : Call) : Out :=
     else if typeBad then ret s .ebadtype
     else if charMix then ret s .echar
     else if negLen then ret s .einval
-    else Drv.putAtt aexists grows s
+    else Drv.putAtt aexists (xlen ot on) (xlen nt nn) s      -- xsz = x_len_NC_attrV(xtype, nelems)
   | .getAtt v nameBad aexists =>
     if v == .bad then ret s .enotvar
     else if nameBad then ret s .ebadname
     else if !aexists then ret s .enotatt                    -- ncmpio_get_att
     else ret s .noerr
-  | .copyAtt vinBad voutBad nameBad srcExists dstExists grows =>
+  | .copyAtt vinBad voutBad nameBad srcExists dstExists st sn dt dn =>
     if s.d.rdonly then ret s .eperm
     else if vinBad then ret s .enotvar
     else if voutBad then ret s .enotvar
     else if nameBad then ret s .ebadname
-    else Drv.copyAtt srcExists dstExists grows s
-  | .renameAtt v nameBad aexists newInUse longer =>
+    else Drv.copyAtt srcExists dstExists (xlen dt dn) (xlen st sn) s
+  | .renameAtt v nameBad aexists newInUse oldLen newLen =>
     if s.d.rdonly then ret s .eperm
     else if v == .bad then ret s .enotvar
     else if nameBad then ret s .ebadname
-    else Drv.renameAtt aexists newInUse longer s
-  | .renameVar v nameBad inUse longer =>
+    else Drv.renameAtt aexists newInUse oldLen newLen s
+  | .renameVar v nameBad inUse oldLen newLen =>
     if s.d.rdonly then ret s .eperm
     else if v == .global then ret s .eglobal
     else if v == .bad then ret s .enotvar
     else if nameBad then ret s .ebadname
     else if inUse then ret s .enameinuse
-    else Drv.rename longer s
-  | .renameDim nameBad dimBad inUse longer =>
+    else Drv.rename oldLen newLen s
+  | .renameDim nameBad dimBad inUse oldLen newLen =>
     if s.d.rdonly then ret s .eperm
     else if nameBad then ret s .ebadname
     else if dimBad then ret s .ebaddim
     else if inUse then ret s .enameinuse
-    else Drv.rename longer s
+    else Drv.rename oldLen newLen s
   | .rw isPut coll v text coordBad varn =>
     let e0 := sanityCheck s.d isPut true coll v text
     -- check_start_count_stride only if the sanity check passed
